@@ -32,7 +32,8 @@ Record optable := {
   t_free_ops : list Z;
   t_compare_ops : list Z;
   t_findlabels : string;             (* "cross_dis.findlabels" / "wordcode.findlabels" *)
-  t_cmp_op : list string
+  t_cmp_op : list string;
+  t_hasarg : list Z                  (* opcode.hasarg of the table ([] where the module has none: before 3.12) *)
 }.
 
 Record reftable := {
